@@ -130,6 +130,10 @@ func (c *SumDiffCommand) sumDiffItem(item string, tow io.Writer) error {
 	if !sumHeader.ArchiveInfoList().Equal(destHeader.ArchiveInfoList()) {
 		return errors.New("retentions unmatch between src and dest whisper files")
 	}
+	if !sumTsList.AllEqualTimeRangeAndStep(destTsList) {
+		return errors.New("timeseries time ranges and steps are unalike. " +
+			"retry reading input files before diffing")
+	}
 
 	sumPlDif, destPlDif := sumTsList.Diff(destTsList)
 	if sumPlDif.AllEmpty() && destPlDif.AllEmpty() {
